@@ -29,7 +29,22 @@ class InjectedAttributeError(AttributeError):
     pass
 
 
-KEY_FLAVOURS = ("none", "def", "asyncdef", "nonekey")
+KEY_FLAVOURS = ("none", "def", "asyncdef", "nonekey", "alleq")
+
+
+class EqItem(Item):
+    """Items that all compare equal (like 1, 1.0, True): only the key function tells them apart."""
+
+    __slots__ = ()
+
+    def __eq__(self, o):
+        return isinstance(o, Item)
+
+    def __ne__(self, o):
+        return not isinstance(o, Item)
+
+    def __hash__(self):
+        return 1
 
 
 def _nonekey(x):
@@ -44,7 +59,9 @@ class GBSys:
         if fault:
             self.rec.fault_exc = fault_cls("injected")
         self.sync = sync
-        items = [Item(1, p + 1, k) for p, k in enumerate(data)]
+        items = [(EqItem if keyfl == "alleq" else Item)(1, p + 1, k) for p, k in enumerate(data)]
+        if keyfl == "alleq":
+            keyfl = "def"
         if sync:
             self.src = SyncIterSource(self.rec, 1, items)
             key = None if keyfl == "none" else make_callable("def", self.rec, "key", sem=_nonekey if keyfl == "nonekey" else None)
@@ -203,6 +220,30 @@ def replay_path(args):
             bad("C05", "closing-a-group-raises", len(path), {"observed": repr(r[1])})
         elif fresh.counts() != before:
             bad("C05", "closing-a-group-advances-the-source", len(path), {"expected": before, "observed": fresh.counts()})
+    if not out and "C16" in props and any(o == "gb" for o, _ in history_of(path)):
+        # Whatever closing the newest group does to that group, the groupby goes on as itertools.groupby does when
+        # the group is simply left alone: the rest of its run is skipped, later groups are the later runs -- and the
+        # closed group, stale by then, yields nothing.
+        fresh, twin2 = GBSys(data, keyfl), GBSys(data, keyfl, sync=True)
+        for op, g, *_ in (e["a"] for e in path):
+            fresh.op(op, g)
+            twin2.op(op, g)
+        if fresh.groups:
+            closed = len(fresh.groups)
+            Task(fresh.groups[-1].aclose(), fresh.rec.acct).run()
+            moved = False
+            for _ in range(len(data) + 2):
+                r1, r2 = fresh.op("gb", 0), twin2.op("gb", 0)
+                if r1 != r2:
+                    bad("C16", f"{r1[0]}-instead-of-{r2[0]}+after-closing-a-group", len(path), {"expected": r2, "observed": r1})
+                    break
+                moved = moved or r1[0] == "group"
+                if r1[0] != "group":
+                    break
+            if not out and moved:
+                r1 = fresh.op("grp", closed)
+                if r1[0] != "stop":
+                    bad("C16", "stale-group-yields+after-closing-it", len(path), {"expected": ["stop", 0, 0], "observed": r1})
     if not out and "C04" in props:
         # on a fresh replay of the same history (the drain above has used the first one up): closed where it stands
         for noclose in (False, True):
